@@ -198,7 +198,7 @@ fuzz_target!(|data: &[u8]| {
             }
         }
     }
-    if steps > total_blocks + image.files.len() as u64 + 16 {
+    if steps > 8 * (total_blocks + image.files.len() as u64) + 64 {
         panic!("C10 violated: recovery loaded {steps} blocks for a directory of {total_blocks} blocks");
     }
 });
